@@ -441,6 +441,12 @@ impl BlockData {
             transactions.append(&mut txs);
         }
 
+        // a block can only extend a block from an earlier slot
+        if parent.0 >= slot {
+            warn!("parent in slot {} is not earlier than slot {slot}", parent.0);
+            return ReconstructBlockResult::Error;
+        }
+
         let block = Block {
             _slot: slot,
             hash: block_hash.clone(),
